@@ -76,11 +76,11 @@ def case_load(ses, case):
         extra["log"] = it.io_log[n_before:]
         return res
 
-    ok = explore_checked(ses, f"C19/load/{tag}", run, hyps, function=fn, timeout_ms=800)
+    ok = explore_checked(ses, f"{ses.prop}/load/{tag}", run, hyps, function=fn, timeout_ms=800)
     for pi, r in enumerate(ok):
         ex = r.extra
         it, arr, wrapper = ex["it"], ex["arr"], ex["wrapper"]
-        pid = f"C19/load/{tag}/path{pi}"
+        pid = f"{ses.prop}/load/{tag}/path{pi}"
         own = [e for e in it.effects if e[1] is arr or e[1] is wrapper or e[1] is ex["fs"] or e[1] is arr.chunk_offsets
                or e[1] is arr.byte_ranges]
         ses.decided(f"{pid}/no-store-to-the-array-wrapper-or-filesystem", not own, function=fn, kind="frame", backend="effect-log",
